@@ -202,6 +202,14 @@ def gen_expr(rnd, names):
         if 'ast' in via:
             act = rnd.choice([".parse('1')", ".sys.modules.get('os').getcwd()", ".sys.exit()"])
         e = ("[c.clear(), c.append((1 for q in iter(lambda c=c: c.append(c[0].gi_frame" + back + via + "), 0))), next(c[0]), c[1]" + act + ", c.clear()][3]")
+        if rnd.random() < 0.4:
+            # the same walk taken one hop at a time, each hop from a name that is an AST key and is rebound by a comprehension: the running
+            # generator sits in the list it iterates over
+            inner = 'k' + via.replace('c[0].gi_frame.f_back.f_back', 'k') + act
+            for _ in range(back.count('f_back')):
+                inner = '[%s for k in [k.f_back]][0]' % inner
+            inner = '[%s for k in [k.gi_frame]][0]' % inner
+            e = '[(c.append((%s for k in c)), next(c[0]))[1] for c in [[]]][0]' % inner
         return e, ('frame-trick', back.count('f_back'))
     if r < 0.62:
         if rnd.random() < 0.4:
@@ -212,7 +220,12 @@ def gen_expr(rnd, names):
             arg = rnd.choice(['n', 'k', '[n]', 'n, k', 'k, n'])
             d = rnd.choice(['%r.format(%s)' % (fmt, arg), '%r.format_map({"x": %s, "0": %s})' % (fmt.replace('0', 'x'), arg.split(',')[0], arg.split(',')[0]),
                             '(%r).format(*[%s])' % (fmt, arg), 'list(map(%r.format, [%s]))' % (fmt, arg), '(lambda f: f(%s))(%r.format)' % (arg, fmt),
-                            '(%r + "").format(%s)' % (fmt, arg), '%r.strip().format(%s)' % (fmt, arg), '"{0}".format(%s)' % arg])
+                            '(%r + "").format(%s)' % (fmt, arg), '%r.strip().format(%s)' % (fmt, arg), '"{0}".format(%s)' % arg,
+                            # the bound method taken from the literal and called somewhere else: through a comprehension variable that
+                            # shadows an AST key, or handed to a pure builtin as key=
+                            '[k(n) for k in [%r.format]]' % fmt, '[n(k) for n in [%r.format]][0]' % fmt, '[k(n) for k in [%r.format_map]]' % fmt.replace('0', 'x'),
+                            'max([k, n], key=%r.format)' % fmt, 'sorted([n, k], key=%r.format)' % fmt, 'min([n], key=%r.format)' % fmt,
+                            'list(map(%r.format, [n]))' % fmt, 'next(iter([%r.format]))(n)' % fmt, '[*map(%r.format, [n, k])]' % fmt])
             if rnd.random() < 0.25:
                 # the format string is an AST *value* (text taken from the input); the grammar's expression looks innocent
                 return rnd.choice(['n.format(k)', 'n.format(n, k)', 'n.format_map({"x": k})', '(n + "").format(k)', 'n.strip().format(k, n)']), ('format-trick', fld, fmt)
